@@ -6,7 +6,23 @@ package jwsutil
 
 //@ func VerifyJWS(jwsStr, jwk, opts) (ret, err)
 //@   pure
+//@   requires jwk != nil
+//@   requires forall i int :: 0 <= i && i < len(opts) ==> opts[i] != nil
 
 //@ func ParseJWS(jwsStr, opts) (ret, err)
 //@   pure
+//@   requires forall i int :: 0 <= i && i < len(opts) ==> opts[i] != nil
 //@   ensures [nonnil] err == nil ==> ret != nil
+
+// C16 / C19: secp256k1 keys are read by the repository's own code
+//@ func unmarshalSecp256k1(jwk) (ret, err)
+//@   requires jwk != nil
+//@   modifies nothing
+//@   ensures [atomic] (err != nil ==> ret == nil) && (err == nil ==> ret != nil)
+
+// calling a parse option: it may only write the option struct it is given
+//@ func (o ParseOpt) call(opts)
+//@   modifies deref(opts)
+
+// package-level error value: set once by the initialiser, never reassigned
+//@ global invariant [errInvalidKey] ErrInvalidKey != nil
